@@ -696,15 +696,43 @@ theorem fill_inv {e : Env} {s s' : St} {dt : Int} {lbids : List LBid}
       · rename_i k
         exact fillLoop_inv hw hi ha hdt (hl k) h
 
-/-- well-formed operation: oracle values are unsigned, at most one limit bid per premium bucket -/
-def WfOp : Op → Prop
+/-- well-formed operation: oracle values are unsigned, at most one limit bid per premium bucket; a block under emergency shutdown
+belongs to these histories for lend- and externally initiated auctions (for a vault-initiated one `TriggerEsm` pays the
+proceeds out while the auction stays open — `trigger_esm_…` theorems) -/
+def WfOp (e : Env) : Op → Prop
   | .bid _ _ dt => 0 ≤ dt
   | .tick _ twaC _ twaD _ lbids => 0 ≤ twaC ∧ 0 ≤ twaD ∧ NoSharedPremium lbids
+  | .tickEsm _ twaC _ twaD _ lbids => 0 ≤ twaC ∧ 0 ≤ twaD ∧ NoSharedPremium lbids ∧ e.kind ≠ .vault
   | .reserve _ _ => True
   | .limit _ _ _ => True
 
-theorem step_inv {e : Env} {s : St} {op : Op} (hw : WfEnv e) (hi : Inv e s) (hop : WfOp op) : Inv e (step e s op) := by
+/-- under emergency shutdown the iterator leaves a non-vault auction alone past the end of its window and updates its price inside -/
+theorem tickIterEsm_inv {e : Env} {s : St} {now twaC twaD : Int} {actC actD : Bool}
+    (hw : WfEnv e) (hi : Inv e s) (htw : 0 ≤ twaC) (hk : e.kind ≠ .vault) :
+    Inv e (tickIterEsm e s now twaC actC twaD actD) := by
+  unfold tickIterEsm
+  split
+  · exact hi
+  · rename_i a ha
+    split
+    · split
+      · rename_i hkv; exact absurd hkv hk
+      · exact hi
+    · have := tickIter_inv (now := now) (twaD := twaD) (actC := actC) (actD := actD) hw hi htw
+      unfold tickIter at this
+      rw [ha] at this
+      exact this
+
+theorem step_inv {e : Env} {s : St} {op : Op} (hw : WfEnv e) (hi : Inv e s) (hop : WfOp e op) : Inv e (step e s op) := by
   cases op with
+  | tickEsm now twaC actC twaD actD lbids =>
+    obtain ⟨h1, h2, h3, h4⟩ := hop
+    simp only [step, orElse]
+    have hi1 := tickIterEsm_inv (now := now) (twaD := twaD) (actC := actC) (actD := actD) hw hi h1 h4
+    split
+    · rename_i s' hs'
+      exact fill_inv hw hi1 h2 h3 hs'
+    · exact hi1
   | bid who amt dt =>
     simp only [step, orElse]
     split
@@ -767,7 +795,7 @@ theorem step_inv {e : Env} {s : St} {op : Op} (hw : WfEnv e) (hi : Inv e s) (hop
           · simp; omega
       · exact hi
 
-theorem run_inv {e : Env} (hw : WfEnv e) (ops : List Op) (s : St) (hi : Inv e s) (hops : ∀ op ∈ ops, WfOp op) :
+theorem run_inv {e : Env} (hw : WfEnv e) (ops : List Op) (s : St) (hi : Inv e s) (hops : ∀ op ∈ ops, WfOp e op) :
     Inv e (run e s ops) := by
   induction ops generalizing s with
   | nil => exact hi
